@@ -117,6 +117,30 @@ ADDENDA4 = {
 }
 
 # fifth seeding round (DESIGN 7.3)
+# what the sixth / seventh seeding rounds and the per-property audits added (DESIGN.md 7.3)
+ADDENDA6 = {
+  "C01": " Rounds 6-7: float-format extremes as elements and scalars (extremes, scalar_grid), operands partly read before the operator (used, used_trees), Stream subclasses / hubs / ControlStreams and user iterables as operands (subclasses, iterables), special MIDI / frequency values; a genuine defect of Stream.__getattr__/__call__ on Stream subclasses is a recorded known finding (canary clause attr_subclasses).",
+  "C02": " Rounds 6-7: stages stacked on Streams that already delivered outputs (resumed, resumed_pairs), stage families param-algebra / param-poly / filter-bank (coefficient streams through the filter and polynomial algebra, powers to 7, list operators), long filters, heavy decimation in resample.",
+  "C03": " Round 6: enumerated lifecycle clause (every history of up to 3-4 steps on one stream object, stages right after consuming reads and past the end), sources of other iterable kinds, sign of zero / nan / equal-but-different periods told apart, counts at and above sys.maxsize (repaired defect).",
+  "C04": " Round 6: exact float samples incl. subnormals (float_samples), enumerated long inputs around powers of two to 32769 / 150001 (long_inputs), another filter call made by a helper thread between the lines of the call under test (other_calls_between), endless and over-long memories, coefficients of any finite magnitude.",
+  "C05": " Rounds 6-7: delay-leading divisors and constructor-removed common delays, one scalar spelled as float / int / Fraction in turn (scalar_spellings), operand reuse incl. augmented assignment, lists with repeated members and list arithmetic, substitution by scaled delays, partial-sum denominators equal to another branch's, eq / hash coherence for fractional delays in any term order (repaired defect).",
+  "C06": " Round 6: algebra operation pow, filters called twice with coefficient Streams that serve several calls (clause again), in-place limited periodic coefficient streams; three repaired defects (shared tee copy in powers, call deleting the Stream gain, one-term powers).",
+  "C07": " Round 6: coefficients as Q / plain Fraction / int with weighted term counts and exponents to 7, results of value-preserving operations on the shared x changed in place, hashed (also empty) polynomials then assigned to, augmented operators, comparison with bare numbers.",
+  "C08": " Round 6: typed inputs (str, bytes, bytearray, memoryview, range, array) with text / bytes pads of any length (typed), sizes to 1024 / 4096 with long gaps and inputs to 40000 items (big), pad values -0.0 / nan / unhashable, arrays changed in place.",
+  "C09": " Round 6: several overlap-add / stft jobs alive at once with generated consumption schedules and numeric-type twins (together), every window kind as ola_wnd, normalisation left to the overlap-add, every kind of input signal.",
+  "C10": " Round 6: reflection coefficients within 2**-44 of +-1, in-place writes into unrelated filters / polynomials around the calls (unrelated_history), one block object through many calls with results edited in between (reused_block), quiet and higher-order kcovar.",
+  "C11": " Round 6: histories of earlier levinson_durbin calls on the same list object, reflection vectors of any magnitude incl. +-1 last, orders below / at / beyond the lags, enumerated extreme_float grid (leading coefficients 2^-1060..2^1000).",
+  "C12": " Round 6: plain numbers (1, 0 in every spelling) as list members, numerators tied to the denominator (all-pass, mirrored), lists grown / shrunk / rebuilt by list operations after a first response, further frequency container kinds and empty containers.",
+  "C13": " Rounds 6-7: one ControlStream / hub shared by a bank of designs and read out of lockstep (controls), entry points and foreign defaults, long stream-valued parameters revisiting values after more than 256 others (longstreams).",
+  "C14": " Rounds 6-7: call histories with other strategies / periods between the periodic and the symmetric window, on a freshly executed private module copy (history), sizes by keyword, special alphas.",
+  "C15": " Round 6: the four call forms of a StrategyDict (keywords reach the default), construction from everything dict() takes, two live dictionaries built from one another.",
+  "C16": " Round 6: refused adds re-offered with the same object, equal-but-different control values (sign of zero, type, identity), two ControlStreams alive, events whose iterator defines == (repaired defect: prune by identity).",
+  "C17": " Rounds 6-7: burst schedules and idle steps (honoured pause, resume, then stop inside start_stream), sample formats f h i b B with byte-exact padding (repaired defect: integer formats with a ragged tail), one container object played by two players, 0..4 unplayed recordings ended by the user at any point.",
+  "C18": " Round 6: inf / nan floats, two chunk generators alive at once incl. re-entrant ones (nested, nested_grid), several WavStreams in one process incl. same-name replacement files (wav_multi, wav_multi_grid), hand-laid-out RIFF chunk orders, default size / pad after global changes.",
+  "C19": " Round 6: earlier results changed in place before the call under test, size-dependent memory bursts, tables to 2**17+3 entries, lags to 400 samples, twin oscillator calls, default karplus memory under a seeded random.",
+  "C20": " Round 6: clip of an in-place changed clip result, number types and hair-off values for clip / zcross, one amdf / maverage object on several signals, exact accumulate on plain Fractions and big ints, long envelopes.",
+}
+
 ADDENDA5 = {
   "C01": " Round 5: list / array operands changed in place after the expression is built (mutated, mutated_trees); user container classes through broadcast functions.",
   "C02": " Round 5: finite second operands asked for up to (never beyond) their length, in both operand orders.",
@@ -149,7 +173,7 @@ def main():
       "evidence_file": "/verif/evidence/%s.json" % pid,
       "replay_cmd_template": "./check %s --replay {path}" % pid,
       "engine": "pbt-runner",
-      "level_claimed": {"category": "exploration", "text": text + ADDENDA.get(pid, "") + ADDENDA4.get(pid, "") + ADDENDA5.get(pid, ""), "design_ref": "DESIGN.md section " + ref},
+      "level_claimed": {"category": "exploration", "text": text + ADDENDA.get(pid, "") + ADDENDA4.get(pid, "") + ADDENDA5.get(pid, "") + ADDENDA6.get(pid, ""), "design_ref": "DESIGN.md section " + ref},
       "level_note": note,
       "technique": tech,
     })
